@@ -165,7 +165,7 @@ func c07History(r *hx.Run, w *W, ps *plans, rnd *rand.Rand, in c07Inst, hi int) 
 					quitter.Do(hx.Req{Addr: in.addr, Host: "c07.example", URI: uri, Timeout: 10 * time.Second})
 				}()
 				if !hx.WaitUntil(10*time.Second, func() bool { return w.Farm.InflightKey(key) == 1 }) {
-					r.Inconclusive("C07: aborted probe did not reach the origin")
+					r.InconclusiveCase("C07: aborted probe did not reach the origin")
 				}
 				quitter.Abort()
 				<-qdone
@@ -210,7 +210,7 @@ func c07History(r *hx.Run, w *W, ps *plans, rnd *rand.Rand, in c07Inst, hi int) 
 					return
 				}
 				if !settled {
-					r.Inconclusive(fmt.Sprintf("hit-for-pass burst of %d did not settle: %d in flight, trace=%v", n, infAtSettle, trace))
+					r.InconclusiveCase(fmt.Sprintf("hit-for-pass burst of %d did not settle: %d in flight, trace=%v", n, infAtSettle, trace))
 				} else if infAtSettle < n {
 					r.Violate("pass_requests_not_independent", map[string]string{"mode": "history"}, fmt.Sprintf("burst of %d during the period: only %d were in flight together while the origin held them all", n, infAtSettle), map[string]interface{}{"trace": trace}, cs)
 					return
@@ -228,7 +228,7 @@ func c07History(r *hx.Run, w *W, ps *plans, rnd *rand.Rand, in c07Inst, hi int) 
 					return
 				}
 				if !settled {
-					r.Inconclusive("probe burst did not settle")
+					r.InconclusiveCase("probe burst did not settle")
 				}
 			}
 		}
